@@ -50,9 +50,10 @@ def mc_plan(prop: str, tier: str) -> List[Dict[str, Any]]:
     m_to = {"task": "ta0", "timeout": 2}
     m_sync = {"task": "ts0", "outcome": "exc"}
     pipe_small = [pipe(a, a == "when_executed", mw1, [m_sf, m_wait]) for a in ("when_received", "when_executed", "when_saved")]
-    pipe_big = [pipe(a, s, mw, ms, bs) for a in ("when_received", "when_executed", "when_saved", "default")
-                for s in (False, True) for mw, ms, bs in (([], [m_wait, m_sf], False), (mw1, [m_sf, m_to], False),
-                                                          (mw2, [m_sync, m_wait], True))]
+    ACKS = ("when_received", "when_executed", "when_saved", "default")
+    pipe_big = [pipe(a, s, mw, ms, bs) for a in ACKS
+                for s in (False, True) for mw, ms, bs in (([], [m_wait, m_sf], False), (mw2, [m_sync, m_wait], True))]
+    pipe_timed = [pipe(a, s, mw1, [m_sf, m_to]) for a in ACKS for s in (False, True)]      # a timeout label: time matters
     chain_u = [{"id": 1, "style": "gen"}, {"id": 2, "style": "agen", "parent": 1, "cached": False, "suspend": True},
                {"id": 3, "style": "acm", "cached": False}]
     chain_c = [{"id": 1, "style": "cm"}, {"id": 2, "style": "agen", "parent": 1, "suspend": True}, {"id": 3, "style": "gen", "parent": 2}]
@@ -62,8 +63,9 @@ def mc_plan(prop: str, tier: str) -> List[Dict[str, Any]]:
 
     t = {"task": "ta"}
     deps_small = [deps(chain_u, True, [t, t]), deps(chain_c, False, [t, {"task": "ta", "timeout": 2}])]
-    deps_big = deps_small + [deps(chain_u, False, [t, t, t]), deps(chain_c, True, [t, {"task": "ts", "outcome": "exc"}]),
-                             deps([dict(chain_c[0]), dict(chain_c[1], fail=True), dict(chain_c[2])], True, [t, t])]
+    deps_big = [deps_small[0], deps(chain_u, False, [t, t, t]), deps(chain_c, True, [t, {"task": "ts", "outcome": "exc"}]),
+                deps([dict(chain_c[0]), dict(chain_c[1], fail=True), dict(chain_c[2])], True, [t, t])]
+    deps_timed = [deps_small[1]]                                                             # a timeout label: time matters
     oc_all = ["ret", "exc", "nores"]
     plans = {
         "C01": [dict(cfgs=flow_small if q else flow_big, outcomes=["ret"], max_now=0)],
@@ -71,11 +73,14 @@ def mc_plan(prop: str, tier: str) -> List[Dict[str, Any]]:
         "C04": [dict(cfgs=sat if q else sat_big, outcomes=["ret"], max_now=0)],
         "C05": [dict(cfgs=timed_small, outcomes=["ret"], max_now=9)] if q else
                [dict(cfgs=timed_big, outcomes=["ret"], max_now=10), dict(cfgs=timed_deep, outcomes=["ret"], max_now=8)],
-        "C02": [dict(cfgs=pipe_small if q else pipe_big, outcomes=oc_all, max_now=0 if q else 3)],
-        "C07": [dict(cfgs=pipe_small if q else pipe_big, outcomes=oc_all + ["base"], max_now=0 if q else 3)],
-        "C10": [dict(cfgs=pipe_small if q else pipe_big, outcomes=oc_all, max_now=0)],
-        "C06": [dict(cfgs=deps_small[:1] if q else deps_big, outcomes=["ret", "exc"], max_now=0)],
-        "C12": [dict(cfgs=deps_small if q else deps_big, outcomes=["ret", "exc"], max_now=0 if q else 3)],
+        "C02": [dict(cfgs=pipe_small, outcomes=oc_all, max_now=0)] if q else
+               [dict(cfgs=pipe_big, outcomes=oc_all, max_now=0), dict(cfgs=pipe_timed, outcomes=oc_all, max_now=3)],
+        "C07": [dict(cfgs=pipe_small, outcomes=oc_all + ["base"], max_now=0)] if q else
+               [dict(cfgs=pipe_big, outcomes=oc_all + ["base"], max_now=0), dict(cfgs=pipe_timed, outcomes=oc_all + ["base"], max_now=3)],
+        "C10": [dict(cfgs=pipe_small if q else pipe_big + pipe_timed, outcomes=oc_all, max_now=0)],
+        "C06": [dict(cfgs=deps_small[:1] if q else deps_big + deps_timed, outcomes=["ret", "exc"], max_now=0)],
+        "C12": [dict(cfgs=deps_small, outcomes=["ret", "exc"], max_now=0)] if q else
+               [dict(cfgs=deps_big, outcomes=["ret", "exc"], max_now=0), dict(cfgs=deps_timed, outcomes=["ret", "exc"], max_now=3)],
     }
     return plans[prop]
 
